@@ -55,6 +55,10 @@ pub struct BRule {
     /// Generated for C11 only, whose oracles compare engines with each other and need no reference semantics
     #[serde(default)]
     pub copies: Vec<(u8, u8)>,
+    /// the rule carries the no-loop attribute (GRL files used with the backward engine do; the pinned search
+    /// does not look at it, so nothing may change)
+    #[serde(default)]
+    pub no_loop: bool,
 }
 
 #[derive(Clone, Debug, Serialize, Deserialize, PartialEq)]
@@ -264,7 +268,9 @@ fn build_kb(types: &[Ty], rules: &[BRule]) -> KnowledgeBase {
         if r.fails {
             actions.push(ActionType::MethodCall { object: "Ghost".to_string(), method: "poke".to_string(), args: vec![] });
         }
-        let _ = kb.add_rule(Rule::new(format!("R{i}"), cond_group(types, &r.cond), actions));
+        let mut rule = Rule::new(format!("R{i}"), cond_group(types, &r.cond), actions);
+        rule.no_loop = r.no_loop;
+        let _ = kb.add_rule(rule);
     }
     kb
 }
@@ -793,7 +799,8 @@ fn run_search(
                     continue;
                 }
                 let goal = &goals[*g as usize % goals.len()];
-                let text = if *malformed { "count(?x) WHERE ((".to_string() } else { format!("count(?x) WHERE {}", goal_text(types, goal)) };
+                // one well-formed aggregate in three is over the NEGATED pattern
+                let text = if *malformed { "count(?x) WHERE ((".to_string() } else if (*g / 3) % 3 == 1 { format!("count(?x) WHERE NOT {}", goal_text(types, goal)) } else { format!("count(?x) WHERE {}", goal_text(types, goal)) };
                 let before = snapshot(&facts);
                 let mine = match run_aggregate(&mut engine, &text, &mut facts) {
                     Some(r) => r,
@@ -1187,7 +1194,7 @@ fn gen_search(rng: &mut Rng, hash_seed: u64, c11_ops: bool, with_negation: bool)
         } else {
             vec![]
         };
-        rules.push(BRule { cond, sets, fails, copies });
+        rules.push(BRule { cond, sets, fails, copies, no_loop: rng.chance(1, 4) });
     }
     // state-machine programs (a quarter of the non-Horn ones): field 0 is a state that rules move from
     // value to value (`F.f0 == a -> F.f0 = b`), field 1 an output concluded from a state
@@ -1201,11 +1208,11 @@ fn gen_search(rng: &mut Rng, hash_seed: u64, c11_ops: bool, with_negation: bool)
         for _ in 0..2 + rng.usize(3) {
             let a = rng.below(nvals as u64) as u8;
             let b = (a + 1 + rng.below(nvals as u64 - 1) as u8) % nvals;
-            m.push(BRule { cond: BCond::Atom(BAtom { field: 0, op: 0, lit: a }), sets: vec![(0, b)], fails: false, copies: vec![] });
+            m.push(BRule { cond: BCond::Atom(BAtom { field: 0, op: 0, lit: a }), sets: vec![(0, b)], fails: false, copies: vec![], no_loop: false });
         }
         let v = rng.below(3) as u8;
         for _ in 0..1 + rng.usize(2) {
-            m.push(BRule { cond: BCond::Atom(BAtom { field: 0, op: 0, lit: rng.below(nvals as u64) as u8 }), sets: vec![(1, v)], fails: false, copies: vec![] });
+            m.push(BRule { cond: BCond::Atom(BAtom { field: 0, op: 0, lit: rng.below(nvals as u64) as u8 }), sets: vec![(1, v)], fails: false, copies: vec![], no_loop: false });
         }
         m.extend(rules.iter().take(rng.usize(3)).cloned());
         rng.shuffle(&mut m);
@@ -1283,7 +1290,7 @@ fn gen_search(rng: &mut Rng, hash_seed: u64, c11_ops: bool, with_negation: bool)
             5 => BOp::EngineRetract(rng.below(4) as u8),
             6 => BOp::Retype(rng.below(NF as u64) as u8),
             8 => BOp::SetFactNull(rng.below(NF as u64) as u8),
-            9 => BOp::QueryAggregate(rng.below(3) as u8, rng.chance(1, 3)),
+            9 => BOp::QueryAggregate(rng.below(9) as u8, rng.chance(1, 3)),
             10 => BOp::ToggleRule(rng.below(16) as u8),
             _ => BOp::SetConfig { strategy: *rng.pick(&[0u8, 0, 1, 2]), max_solutions: *rng.pick(&[1usize, 1, 3]), memo: rng.chance(2, 3), max_depth: if rng.chance(1, 3) { Some(*rng.pick(&[0usize, 1, 2, 3, 4])) } else { None } },
         });
@@ -1472,22 +1479,22 @@ impl World for BwdWorld {
                     let mut alts: Vec<BRule> = Vec::new();
                     match &r.cond {
                         BCond::And(a, b) | BCond::Or(a, b) => {
-                            alts.push(BRule { cond: (**a).clone(), sets: r.sets.clone(), fails: r.fails, copies: r.copies.clone() });
-                            alts.push(BRule { cond: (**b).clone(), sets: r.sets.clone(), fails: r.fails, copies: r.copies.clone() });
+                            alts.push(BRule { cond: (**a).clone(), sets: r.sets.clone(), fails: r.fails, copies: r.copies.clone(), no_loop: r.no_loop });
+                            alts.push(BRule { cond: (**b).clone(), sets: r.sets.clone(), fails: r.fails, copies: r.copies.clone(), no_loop: r.no_loop });
                         }
                         _ => {}
                     }
                     if r.fails {
-                        alts.push(BRule { cond: r.cond.clone(), sets: r.sets.clone(), fails: false, copies: r.copies.clone() });
+                        alts.push(BRule { cond: r.cond.clone(), sets: r.sets.clone(), fails: false, copies: r.copies.clone(), no_loop: r.no_loop });
                         if !r.copies.is_empty() {
-                            alts.push(BRule { cond: r.cond.clone(), sets: r.sets.clone(), fails: r.fails, copies: vec![] });
+                            alts.push(BRule { cond: r.cond.clone(), sets: r.sets.clone(), fails: r.fails, copies: vec![], no_loop: r.no_loop });
                         }
                     }
                     if r.sets.len() > 1 {
                         for k in 0..r.sets.len() {
                             let mut s = r.sets.clone();
                             s.remove(k);
-                            alts.push(BRule { cond: r.cond.clone(), sets: s, fails: r.fails, copies: r.copies.clone() });
+                            alts.push(BRule { cond: r.cond.clone(), sets: s, fails: r.fails, copies: r.copies.clone(), no_loop: r.no_loop });
                         }
                     }
                     for b in alts {
